@@ -563,7 +563,7 @@ def check_history(c, impl_out):
                     want = {"shiftjis": "sjis", "utf16": "utf16"}[SPEC_CFG[game][3]] + "-" + {"big": "be", "little": "le"}[SPEC_CFG[game][2]]
                     if not (ret.startswith("tt:") and want in ret[3:].split("+")):
                         return where + ": read_text_archive is not TextArchive::from_bytes(read(path), %s): %s" % (want, ret[:80])
-                elif ret not in ("tr:same-ok", "tr:same-err"):
+                elif ret not in ("tr:same-ok", "tr:same-err", "tr:same-panic"):
                     return where + ": typed read helper %d differs from its parser applied to read(path): %s" % (o[3], ret[:80])
         elif kind in ("W", "WA", "WT"):
             payload = bytes(o[3]) if kind == "W" else bytes(o[-1])
@@ -949,7 +949,7 @@ def agree(impl_out, model_out):
             return False
         if rx[:3] in ("ta:", "tt:") and ry[:3] == rx[:3] and ry[3:] in rx[3:].split("+"):
             continue
-        if rx in ("tr:same-ok", "tr:same-err") and ry == "tr:same":
+        if rx in ("tr:same-ok", "tr:same-err", "tr:same-panic") and ry == "tr:same":
             continue
         return False
     return True
